@@ -572,3 +572,28 @@ Example ex_element_lookup_fails : ∀ k, is_renewal k = true →
   let o := host_run true k e h3 (Some rq3) None in
   ho_ok o = false ∧ ho_calls o = [CElement false] ∧ elements (w_locked (h_wallet (ho_host o))) = [].
 Proof. intros k Hk. destruct k; try discriminate Hk; vm_compute; done. Qed.
+
+(** values that cannot be summed in 128 bits: the host refuses before it reserves anything,
+    the repaired renter function refuses and releases (hypotheses of the release theorems at
+    these failure points) *)
+Example ex_overflowing_renter_inputs : ∀ k,
+  let o := host_run true k e_same h3
+             (Some (mk_req t3 [(11%N, max_currency); (12%N, max_currency)] 0)) None in
+  ho_ok o = false ∧ elements (w_locked (h_wallet (ho_host o))) = [] ∧
+  match ho_calls o with [] => True | _ => False end.
+Proof. intros k. destruct k; vm_compute; done. Qed.
+
+Example ex_overflowing_host_inputs : ∀ k,
+  let o := renter_run true k re_ok r3 t3
+             (Some (mk_hinputs [(2%N, max_currency); (3%N, max_currency)])) None in
+  ro_ok o = false ∧ ro_calls o = [RFund 2; RRelease 2] ∧
+  elements (w_locked (r_wallet (ro_renter o))) = [].
+Proof. intros k. destruct k; vm_compute; done. Qed.
+
+(** the host's share is zero: it funds and reserves nothing and the exchange still commits *)
+Example ex_zero_host_cost :
+  let a := attempt true KRefresh e_same re_ok all_delivered h3 r3 (mk_terms 7 1 2 120 0) in
+  ro_ok (ao_renter a) = true ∧ ho_ok (ao_host a) = true ∧
+  ho_calls (ao_host a) = [CElement true; CFund 0; CTxSet true; CPoolSet true; CRecord; CBroadcast] ∧
+  elements (w_locked (h_wallet (ho_host (ao_host a)))) = [].
+Proof. vm_compute. done. Qed.
